@@ -65,3 +65,21 @@ CLAIMS["C03"] = {
             "arbitrary data, nor numpy semantics; reproducibility of the "
             "event limit rests on C16's seeding rule.",
 }
+
+CLAIMS["C19"] = {
+    "technique": "affine normal forms (exact rational functions) for chunk / "
+                 "range arithmetic in both sibling implementations; ordering "
+                 "rule binding-before-eviction; def-use clamp rule",
+    "text": "Network code cannot run offline, so its shape is the only thing "
+            "checkable: chunk bounds, the exclusive→inclusive Range header "
+            "in HTTPFile and S3File, chunk index range, in-chunk offsets and "
+            "consumed amounts are compared as affine forms; the returned "
+            "chunk must be bound before (or skipped by) the eviction; the "
+            "read range must be clamped to the resource and a negative size "
+            "must mean 'to the end'; seek/tell/read position protocol; "
+            "hand-over of the file object by the non-local formats.",
+    "note": "Byte equality for arbitrary access sequences and equality of a "
+            "dataset opened over HTTP with the local one are not decided "
+            "(need a server and execution). The chunk loop is decided "
+            "piecewise, not as a whole.",
+}
